@@ -132,6 +132,7 @@ Proof.
     + destruct (cursor_seek _ pos sf) as [n|]; [|exact Hk].
       destruct (n <=? i64_max)%Z; [|exact Hk]. cbn. apply kept_set_handle; [exact Hx|exact Hk].
   - (* write *)
+    destruct (write_too_large x data); [exact Hk|].
     destruct (put st h x data) as [st'|] eqn:Ep; [|exact Hk]. cbn. eapply kept_put; eassumption.
   - (* flush *)
     destruct x as [c p|j dest buf pos|c p|j ino pos|j ino pos app|]; try exact Hk.
